@@ -13,3 +13,5 @@ pub mod ringitem;
 pub mod slip;
 pub mod transaction;
 pub mod wallet;
+#[cfg(saito_verif)]
+pub mod verif_hook;
